@@ -90,6 +90,14 @@ Theorem window_ok :
 Proof. exact WindowProofs.window_ok. Qed.
 Print Assumptions window_ok.
 
+Theorem window_lengths :
+  forall (threshold : N) (buf rb rest : list byte),
+    (length rb <= length buf)%nat ->
+    ((length rb < length buf)%nat -> rest = []) ->
+    ops_len (write_window threshold rb buf) = len buf.
+Proof. exact window_len. Qed.
+Print Assumptions window_lengths.
+
 (** The hypothesis about the encoding holds for the real wire format (uvarint length prefix +
     proto3 fields of OverlayOp) that Exec/C14.v uses: the theorems are not vacuous. *)
 Theorem real_codec_is_prefix_code : forall o rest, dec (enc o ++ rest) = Some (o, rest).
